@@ -15,6 +15,13 @@ Clauses (property C09):
                commands executed are a subsequence of these lines (a line is dropped only when its own input task failed)
   callouts     every scheduled call_out fired, unless its object was destructed (or shutdown)
   leak         no connection record outlives its user (slots occupied at the end = users still connected)
+  hb-schedule  within one loop iteration (one timer tick) an object's heart_beat runs at most once, and never after the
+               object was destructed: a failing or self-removing heart beat does not disturb the round of the others
+  turns        within one loop iteration a user gets at most ONE command served (process_input once, the command once):
+               a user with a backlog cannot keep the others waiting
+  preload      every file the master's epilog() names is handed to preload(), in order, also after one failed to load
+  disconnect   the driver tells a user object `net_dead` only when that user's own client went away: events of other
+               connections (hang-ups, errors, accepts arriving in the same poll) never cost a user its connection
 -/
 import NV.C09.Model
 
@@ -27,6 +34,7 @@ structure Expect where
   closed : List Nat := []                -- clients the script closes
   settle : Bool := true                  -- the history ends with enough idle cycles / ticks to drain everything
   coCutoff : Nat := 0                    -- cycle of the second-to-last tick: call_outs scheduled later may stay pending
+  preloads : List String := []           -- files epilog() hands to preload_objects(), in order
 
 def isCrash : Ev → Bool
   | .crash _ => true
@@ -65,7 +73,7 @@ def hbExpected : Option Oid → List Oid → List Ev → List Oid
       (match cur with
        | some o => hbExpected none (on.erase o) es
        | none => hbExpected none on es)
-    | .tCmd _ _ | .tInput _ _ | .tCo _ _ | .tReset _ | .tConnect _ | .tLogon _ | .cycle _ => hbExpected none on es
+    | .tCmd _ _ | .tInput _ _ | .tIt _ _ _ | .tPrompt _ | .tEpilog | .tPreload _ | .tCo _ _ | .tReset _ | .tCleanup _ | .tConnect _ | .tLogon _ | .cycle _ => hbExpected none on es
     | _ => hbExpected cur on es
 
 def finalHbs (es : List Ev) : Option (List String) :=
@@ -85,8 +93,12 @@ def linesOf (sends : List (Nat × String)) (client : Nat) : List String :=
 def servedCmds (es : List Ev) (u : Oid) : List String :=
   es.filterMap (fun e => match e with | .tCmd o v => if o = u then some v else none | _ => none)
 
+/-- the lines that reached the user object: through process_input, or through a pending input_to() callback -/
 def servedInputs (es : List Ev) (u : Oid) : List String :=
-  es.filterMap (fun e => match e with | .tInput o v => if o = u then some v else none | _ => none)
+  es.filterMap (fun e => match e with
+    | .tInput o v => if o = u then some v else none
+    | .tIt o _ v => if o = u then some v else none
+    | _ => none)
 
 def goneUsers (es : List Ev) : List Oid :=
   es.filterMap (fun e => match e with
@@ -152,6 +164,62 @@ def clauseRefs (es : List Ev) : List String :=
     | .refs m x => if m == 0 && x == 0 then none else some s!"refs master={m} simul_efun={x}"
     | _ => none)
 
+/-- clause `disconnect`: `net_dead` is applied only to users whose own client closed or reset the connection
+    (`clients` / `users` pair every scripted client with the user object its connection was given) -/
+def clauseDisconnect (x : Expect) (es : List Ev) : List String :=
+  let clients := (if x.console then [0] else []) ++ x.conns
+  (clients.zip (usersOfConnects es)).filterMap (fun (c, ou) =>
+    match ou with
+    | none => none
+    | some u =>
+      if es.contains (.tNetdead u) && !x.closed.contains c then
+        some s!"disconnect {u.name} lost its connection although client c{c} never hung up"
+      else none)
+
+/-- clause `hb-schedule`: `seen` = objects whose heart_beat already ran in this iteration, `gone` = destructed objects
+    (a `dest` aimed at a user that has not logged on yet is a no-op in the driver), `on` = users that have logged on -/
+def hbSchedule : List Oid → List Oid → List Oid → List Ev → List String
+  | _, _, _, [] => []
+  | _, gone, on, .cycle _ :: es => hbSchedule [] gone on es
+  | seen, gone, on, .tLogon u :: es => hbSchedule seen gone (u :: on) es
+  | seen, gone, on, .tHb o :: es =>
+    if gone.contains o then [s!"hb-schedule heart_beat of destructed {o.name}"]
+    else if seen.contains o then [s!"hb-schedule {o.name} beat twice in one tick"]
+    else hbSchedule (o :: seen) gone on es
+  | seen, gone, on, .xDest _ t :: es =>
+    match t with
+    | .user _ => hbSchedule seen (if on.contains t then t :: gone else gone) on es
+    | _ => hbSchedule seen (t :: gone) on es
+  | seen, gone, on, _ :: es => hbSchedule seen gone on es
+
+def clauseHbSchedule (es : List Ev) : List String := hbSchedule [] [] [] es
+
+/-- clause `turns`: `ins` / `cmds` = users whose process_input / command already ran in this iteration -/
+def turnsOk : List Oid → List Oid → List Ev → List String
+  | _, _, [] => []
+  | _, _, .cycle _ :: es => turnsOk [] [] es
+  | ins, cmds, .tInput u _ :: es =>
+    if ins.contains u then [s!"turns {u.name} served twice in one iteration"] else turnsOk (u :: ins) cmds es
+  | ins, cmds, .tIt u _ _ :: es =>
+    if ins.contains u then [s!"turns {u.name} served twice in one iteration"] else turnsOk (u :: ins) cmds es
+  | ins, cmds, .tCmd u _ :: es =>
+    if cmds.contains u then [s!"turns {u.name} served twice in one iteration"] else turnsOk ins (u :: cmds) es
+  | ins, cmds, _ :: es => turnsOk ins cmds es
+
+def clauseTurns (es : List Ev) : List String := turnsOk [] [] es
+
+def preloaded (es : List Ev) : List String :=
+  es.filterMap (fun e => match e with | .tPreload n => some n | _ => none)
+
+/-- clause `preload`: every file epilog() returned is handed to the master's preload(), in order, exactly once - a file
+    that fails to load does not stop the others -/
+def beforeStart (es : List Ev) : List Ev := es.takeWhile (fun e => e != .start)
+
+def clausePreload (x : Expect) (es : List Ev) : List String :=
+  -- preload_objects() runs before backend() is entered (`start`)
+  if preloaded (beforeStart es) == x.preloads then []
+  else [s!"preload loaded={preloaded (beforeStart es)} expected={x.preloads}"]
+
 def judgeEv (x : Expect) (es : List Ev) : List String :=
   if !(clauseCrash es).isEmpty then clauseCrash es else
   let ex := hasExit es
@@ -191,6 +259,6 @@ def judgeEv (x : Expect) (es : List Ev) : List String :=
     | some n =>
       let live := (liveUsers [] es).length
       if n > live then [s!"leaked-conn slots={n} live-users={live}"] else []
-  v1 ++ v2 ++ v3 ++ v4 ++ v5 ++ v6 ++ v7 ++ clauseRefs es
+  v1 ++ v2 ++ v3 ++ v4 ++ v5 ++ v6 ++ v7 ++ clauseRefs es ++ clauseDisconnect x es ++ clauseHbSchedule es ++ clauseTurns es ++ clausePreload x es
 
 end NV.C09
